@@ -1742,7 +1742,7 @@ def explore(
                     res.samples.append(
                         {
                             "path_condition": [str(p)[:200] for p in c.pc[:8]],
-                            "witness": {n: model_value(m, v) for n, v in list(c.vars.items())[:12]},
+                            "witness": {n: model_value(m, v) for n, v in list(c.vars.items())[:64]},
                             "atoms_on_path": c.path_atoms,
                         }
                     )
